@@ -296,6 +296,106 @@ func callArg(rel, fn, callee string, idx int) ast.Expr {
 }
 
 // ---------------------------------------------------------------------------------------------
+// copy/alias facts (C20): does a boundary path copy the bytes it moves?
+
+func exprString(e ast.Expr) string {
+	var buf bytes.Buffer
+	printer.Fprint(&buf, token.NewFileSet(), e)
+	return buf.String()
+}
+
+// isFreshCopy: append([]byte(nil), x...) or append(buf[:0], x...)
+func isFreshCopy(e ast.Expr) bool {
+	ce, ok := e.(*ast.CallExpr)
+	if !ok || exprString(ce.Fun) != "append" || len(ce.Args) != 2 || !ce.Ellipsis.IsValid() {
+		return false
+	}
+	a0 := exprString(ce.Args[0])
+	return a0 == "[]byte(nil)" || strings.HasSuffix(a0, "[:0]")
+}
+
+// allAssignsCopy: every assignment to lhs inside fn whose right-hand side is not nil is a fresh copy;
+// at least one such assignment must exist.
+func allAssignsCopy(rel, fn, lhs string) bool {
+	fd := findFunc(rel, fn)
+	if fd == nil {
+		fatal("function %s not found in %s", fn, rel)
+	}
+	n, ok := 0, true
+	ast.Inspect(fd.Body, func(nd ast.Node) bool {
+		as, is := nd.(*ast.AssignStmt)
+		if !is || len(as.Lhs) != len(as.Rhs) {
+			return true
+		}
+		for i, l := range as.Lhs {
+			if exprString(l) != lhs {
+				continue
+			}
+			if exprString(as.Rhs[i]) == "nil" {
+				continue
+			}
+			n++
+			if !isFreshCopy(as.Rhs[i]) {
+				ok = false
+			}
+		}
+		return true
+	})
+	return ok && n > 0
+}
+
+// allReturnsOfCopy: every return whose first result mentions ident is a fresh copy of it.
+func allReturnsOfCopy(rel, fn, ident string) bool {
+	fd := findFunc(rel, fn)
+	if fd == nil {
+		fatal("function %s not found in %s", fn, rel)
+	}
+	n, ok := 0, true
+	ast.Inspect(fd.Body, func(nd ast.Node) bool {
+		rs, is := nd.(*ast.ReturnStmt)
+		if !is || len(rs.Results) == 0 {
+			return true
+		}
+		s := exprString(rs.Results[0])
+		if !strings.Contains(s, ident) {
+			return true
+		}
+		n++
+		if !isFreshCopy(rs.Results[0]) {
+			ok = false
+		}
+		return true
+	})
+	return ok && n > 0
+}
+
+// callsWithArg counts calls callee(…, arg, …) inside fn.
+func callsWithArg(rel, fn, callee, arg string) int {
+	fd := findFunc(rel, fn)
+	if fd == nil {
+		fatal("function %s not found in %s", fn, rel)
+	}
+	n := 0
+	ast.Inspect(fd.Body, func(nd ast.Node) bool {
+		ce, is := nd.(*ast.CallExpr)
+		if !is || exprString(ce.Fun) != callee {
+			return true
+		}
+		for _, a := range ce.Args {
+			if exprString(a) == arg {
+				n++
+			}
+		}
+		return true
+	})
+	return n
+}
+
+func (o *out) boolean(name string, v bool, doc string) {
+	fmt.Fprintf(&o.b, "/-- %s -/\ndef %s : Bool := %v\n", doc, name, v)
+}
+
+// ---------------------------------------------------------------------------------------------
 
 type out struct{ b strings.Builder }
 
@@ -410,6 +510,20 @@ func main() {
 		leanExpr(rhsOf("leveldb/filter/bloom.go", "bloomFilter.NewGenerator", "k"), env{}, map[string]string{"f": "f"}))
 	fmt.Fprintf(&o.b, "/-- `makeInternalKey`: packed number -/\ndef packNum (seq kt : Nat) : Nat := %s\n",
 		leanExpr(callArg("leveldb/key.go", "makeInternalKey", "binary.LittleEndian.PutUint64", 1), env{}, map[string]string{"seq": "seq", "kt": "kt"}))
+
+	// copy/alias facts at the API boundary (C20)
+	o.b.WriteString("\n/-! Which boundary paths copy the bytes they move (read off the Go AST). -/\n\n")
+	o.boolean("ownBatchCopies", callsWithArg("leveldb/batch.go", "Batch.appendRec", "copy", "key") >= 1 && callsWithArg("leveldb/batch.go", "Batch.appendRec", "copy", "value") >= 1,
+		"`Batch.appendRec` copies key and value into the batch buffer")
+	o.boolean("ownMemdbPutCopies", callsWithArg("leveldb/memdb/memdb.go", "DB.Put", "append", "key") >= 1 && callsWithArg("leveldb/memdb/memdb.go", "DB.Put", "append", "value") >= 1,
+		"`memdb.DB.Put` appends (copies) key and value into its arena")
+	o.boolean("ownMemGetCopies", allReturnsOfCopy("leveldb/db.go", "DB.get", "mv"),
+		"`DB.get` returns a fresh copy of a memdb hit")
+	o.boolean("ownTableGetCopies", allAssignsCopy("leveldb/table/reader.go", "Reader.find", "value"),
+		"`table.Reader.find` always copies the value out of the block buffer")
+	o.boolean("ownIterCopies", allAssignsCopy("leveldb/db_iter.go", "dbIter.next", "i.key") && allAssignsCopy("leveldb/db_iter.go", "dbIter.next", "i.value") &&
+		allAssignsCopy("leveldb/db_iter.go", "dbIter.prev", "i.key") && allAssignsCopy("leveldb/db_iter.go", "dbIter.prev", "i.value"),
+		"`dbIter.next/prev` copy key and value into iterator-owned buffers")
 
 	o.b.WriteString("\nend GoLevel.Gen\n")
 
